@@ -347,6 +347,108 @@ func runTCPClient(phases []phase) error {
 	return nil
 }
 
+// runUDPClient drives a UDP client endpoint: the harness plays a UDP server that answers for a while
+// (the channel must stay open), falls silent (idle expiry) or is absent (ICMP refusals).
+func runUDPClient(phases []phase) error {
+	c14Hook()
+	port := sim.FreePort()
+	n := &gomavlib.Node{Endpoints: []gomavlib.EndpointConf{gomavlib.EndpointUDPClient{Address: sim.Addr(port)}},
+		Dialect: ardupilotmega.Dialect, OutVersion: gomavlib.V2, OutSystemID: 9, HeartbeatPeriod: 15 * time.Millisecond,
+		IdleTimeout: c14Idle}
+	if err := n.Initialize(); err != nil {
+		return fmt.Errorf("BROKEN: %v", err)
+	}
+	rec := sim.StartRecorder(n, sim.Pacing{Kind: "fast"}, nil)
+	defer func() {
+		closeNode(n, bound) //nolint:errcheck
+		rec.WaitClosed(bound)
+	}()
+	for pi, ph := range phases {
+		if ph.kind == "down" {
+			time.Sleep(ph.down) // nothing listens: heartbeats are refused, the channel closes and reopens
+			continue
+		}
+		pc, err := net.ListenPacket("udp4", sim.Addr(port))
+		if err != nil {
+			return fmt.Errorf("BROKEN: listen udp: %v", err)
+		}
+		// answer every datagram for a while: the channel that is open now must survive 4 idle timeouts
+		closesBefore := 0
+		for _, e := range lifecycle(rec.Snapshot()) {
+			if !e.open {
+				closesBefore++
+			}
+		}
+		buf := make([]byte, 2048)
+		start := time.Now()
+		var firstFrom time.Time
+		stalled := false
+		last := time.Now()
+		for time.Since(start) < 3*c14Idle+c14Reconnect*3 {
+			pc.SetReadDeadline(time.Now().Add(c14Idle / 4)) //nolint:errcheck
+			_, addr, rerr := pc.ReadFrom(buf)
+			if time.Since(last) > c14Idle/2 {
+				stalled = true
+			}
+			last = time.Now()
+			if rerr == nil {
+				if firstFrom.IsZero() {
+					firstFrom = time.Now()
+				}
+				pc.WriteTo(tagged(1, pi, "debug", true, nil, 0).Bytes(), addr) //nolint:errcheck
+			}
+		}
+		if firstFrom.IsZero() {
+			pc.Close()
+			return fmt.Errorf("phase %d: the UDP client sent nothing for %v (no channel open?) events:%s", pi, time.Since(start), renderLife(lifecycle(rec.Snapshot())))
+		}
+		// closes that happened after the first answered datagram + one reconnect cycle are violations
+		if !stalled {
+			for _, e := range lifecycle(rec.Snapshot()) {
+				if !e.open && e.t.After(firstFrom.Add(c14Reconnect*3)) {
+					pc.Close()
+					return fmt.Errorf("phase %d: the channel was closed (%v) although the peer answered every datagram (idle timeout %v) events:%s", pi, e.err, c14Idle, renderLife(lifecycle(rec.Snapshot())))
+				}
+			}
+		}
+		// now fall silent but keep the socket: idle expiry with a timeout error
+		silentFrom := time.Now()
+		closesNow := 0
+		for _, e := range lifecycle(rec.Snapshot()) {
+			if !e.open {
+				closesNow++
+			}
+		}
+		ok := rec.WaitFor(bound, func(recs []sim.Rec) bool {
+			c := 0
+			for _, e := range lifecycle(recs) {
+				if !e.open {
+					c++
+				}
+			}
+			return c > closesNow
+		})
+		pc.Close()
+		if !ok {
+			return fmt.Errorf("phase %d: silent UDP peer but no idle expiry within %v", pi, bound)
+		}
+		life := lifecycle(rec.Snapshot())
+		for _, e := range life {
+			if !e.open && e.t.After(silentFrom) {
+				if !isTimeout(e.err) {
+					return fmt.Errorf("phase %d: silent peer, close event says %v (want a timeout)", pi, e.err)
+				}
+				if d := e.t.Sub(silentFrom); d < c14Idle*7/10 {
+					return fmt.Errorf("phase %d: closed after %v of silence, idle timeout %v", pi, d, c14Idle)
+				}
+				break
+			}
+		}
+		_ = closesBefore
+	}
+	return checkAlternation(lifecycle(rec.Snapshot()), c14Reconnect)
+}
+
 var serialCounter int64
 
 // runSerial drives a serial endpoint (hooked opener): open failures and read failures.
@@ -453,8 +555,8 @@ func init() {
 
 func TestC14Clients(t *testing.T) {
 	rec := evid.New(t, "C14", "client-type endpoints under generated fault sequences: TCP client against a harness server that is down for a while (failed connection attempts), accepts and then ends the connection by EOF, reset or silence (idle timeout); serial endpoint (hooked opener) whose open fails several times and whose reads fail with an injected error; oracles: strictly alternating open/close events (never two channels at once), every close event carries an error matching the injected cause, a fresh channel opens after every close but not earlier than the reconnect delay, connections seen by the peer == open events; non-trivial = >=2 consecutive failures including a failed connect; distinct by hash of the phases")
-	rec.Require("tcp-client", "serial", "failed-connect-then-failure", "idle-expiry", "reset")
-	evid.Check(t, rec, evid.N(30, 100), func(t *rapid.T) {
+	rec.Require("tcp-client", "serial", "udp-client", "failed-connect-then-failure", "idle-expiry", "reset")
+	evid.Check(t, rec, evid.N(14, 80), func(t *rapid.T) {
 		// several independent sub-scenarios run concurrently to use the waiting time
 		k := rapid.IntRange(3, 6).Draw(t, "batch")
 		type sub struct {
@@ -464,9 +566,14 @@ func TestC14Clients(t *testing.T) {
 		}
 		var subs []*sub
 		for i := 0; i < k; i++ {
-			s := &sub{kind: rapid.SampledFrom([]string{"tcp-client", "tcp-client", "serial"}).Draw(t, "kind")}
+			s := &sub{kind: rapid.SampledFrom([]string{"tcp-client", "tcp-client", "serial", "udp-client"}).Draw(t, "kind")}
 			if s.kind == "tcp-client" {
 				s.phases = drawPhases(t, []string{"down", "eof", "eof", "reset", "idle"})
+			} else if s.kind == "udp-client" {
+				s.phases = drawPhases(t, []string{"down", "answer-then-silent", "answer-then-silent"})
+				if len(s.phases) > 3 {
+					s.phases = s.phases[:3]
+				}
 			} else {
 				s.phases = drawPhases(t, []string{"down", "readerr", "readerr"})
 			}
@@ -477,9 +584,12 @@ func TestC14Clients(t *testing.T) {
 			wg.Add(1)
 			go func(s *sub) {
 				defer wg.Done()
-				if s.kind == "tcp-client" {
+				switch s.kind {
+				case "tcp-client":
 					s.err = runTCPClient(s.phases)
-				} else {
+				case "udp-client":
+					s.err = runUDPClient(s.phases)
+				default:
 					s.err = runSerial(s.phases)
 				}
 			}(s)
